@@ -73,10 +73,18 @@ static bool parseKVs(const std::string &w, std::map<std::string, std::string> &o
     return true;
 }
 
+// does the target survive UrlPathToString -> StringToUrlPath ?
+static const char *urlRoundTrip(const Url::Path &u) {
+    Url::Path v;
+    if (!StringToUrlPath(UrlPathToString(u), v)) return "0";
+    return (v.path == u.path && v.params == u.params && v.query == u.query && v.frag == u.frag) ? "1" : "0";
+}
+
 static std::string showReq(const Request &r) {
     return "m=" + MethodToString(r.method) + " path=" + vh::hex(r.url.path) + " params=" + showKVs(r.url.params) +
            " query=" + showKVs(r.url.query) + " frag=" + vh::hex(r.url.frag) + " ver=" + HttpVerToString(r.http_ver) +
-           " hdr=" + showKVs(r.headers) + " body=" + vh::hex(r.body) + " str=" + vh::hex(r.toString());
+           " hdr=" + showKVs(r.headers) + " body=" + vh::hex(r.body) + " str=" + vh::hex(r.toString()) +
+           " rt=" + urlRoundTrip(r.url);
 }
 
 static const char *showState(RequestParser::State s) {
@@ -156,9 +164,68 @@ struct Srv {
     Server *srv = nullptr;
     int cfd = -1;
     std::string path;
+    // scripted handlers: the server has kLevels handlers (a middleware chain); what handler `lvl` does for
+    // request `idx` is a list of actions: n = call next(), b<hex> = set 200 + body, k = keep the context (answered
+    // later by `done`), t = throw, s = server.stop(), c = server.cleanup().  No script: level 0 keeps the context.
+    struct Act { char kind; std::string body; };
+    static const int kLevels = 3;
+    typedef std::vector<std::vector<Act>> Script;
     std::map<int, ContextSptr> held;
-    std::map<int, std::string> syncs;
+    std::map<int, Script> scripts;
     int next_idx = 0;
+    int cur_idx = -1;
+    bool poisoned = false;      // a handler threw: counters of the library are unbalanced, the objects are leaked at reset
+
+    static bool parseScript(const std::string &spec, Script &out) {
+        out.assign(kLevels, std::vector<Act>());
+        size_t pos = 0; int lvl = 0;
+        while (true) {
+            size_t e = spec.find('/', pos);
+            std::string level = spec.substr(pos, e == std::string::npos ? std::string::npos : e - pos);
+            if (lvl >= kLevels) return false;
+            if (level != "-") {
+                size_t p2 = 0;
+                while (true) {
+                    size_t e2 = level.find('.', p2);
+                    std::string a = level.substr(p2, e2 == std::string::npos ? std::string::npos : e2 - p2);
+                    if (a.empty()) return false;
+                    Act act; act.kind = a[0];
+                    if (a[0] == 'b') { std::vector<uint8_t> d; if (!vh::unhex(a.substr(1), d)) return false; act.body.assign(d.begin(), d.end()); }
+                    else if (a.size() != 1 || std::string("nktsc").find(a[0]) == std::string::npos) return false;
+                    out[lvl].push_back(act);
+                    if (e2 == std::string::npos) break;
+                    p2 = e2 + 1;
+                }
+            }
+            ++lvl;
+            if (e == std::string::npos) break;
+            pos = e + 1;
+        }
+        return true;
+    }
+
+    void runLevel(int lvl, ContextSptr ctx, const NextFunc &next) {
+        if (lvl == 0) {
+            cur_idx = next_idx++;
+            std::cout << "P req " << cur_idx << " " << showReq(ctx->req()) << "\n";
+        }
+        int idx = cur_idx;
+        std::cout << "P call " << idx << " " << lvl << "\n";
+        auto it = scripts.find(idx);
+        if (it == scripts.end()) { if (lvl == 0) held[idx] = ctx; return; }
+        std::vector<Act> acts = it->second[lvl];
+        for (auto &a : acts) {
+            switch (a.kind) {
+                case 'n': next(); break;
+                case 'b': ctx->res().status_code = StatusCode::k200_OK; ctx->res().body = a.body; break;
+                case 'k': held[idx] = ctx; break;
+                case 't': throw std::runtime_error("scripted handler throws");
+                case 's': srv->stop(); break;
+                case 'c': srv->cleanup(); break;
+            }
+        }
+    }
+
     bool eof = false;
     bool cclosed = false;
 
@@ -168,16 +235,8 @@ struct Srv {
         loop = event::Loop::New();
         srv = new Server(loop);
         if (!srv->initialize(network::SockAddr(network::DomainSockPath(path)), 4)) return false;
-        srv->use([this](ContextSptr ctx, const NextFunc &) {
-            int idx = next_idx++;
-            std::cout << "P req " << idx << " " << showReq(ctx->req()) << "\n";
-            auto it = syncs.find(idx);
-            if (it != syncs.end()) {
-                ctx->res().status_code = StatusCode::k200_OK;
-                ctx->res().body = it->second;
-            } else
-                held[idx] = ctx;    // answered later by `done`
-        });
+        for (int lvl = 0; lvl < kLevels; ++lvl)
+            srv->use([this, lvl](ContextSptr ctx, const NextFunc &next) { runLevel(lvl, ctx, next); });
         if (!srv->start()) return false;
         cfd = ::socket(AF_UNIX, SOCK_STREAM | SOCK_NONBLOCK, 0);
         struct sockaddr_un a; memset(&a, 0, sizeof(a));
@@ -206,10 +265,10 @@ struct Srv {
 
     // run the loop and read at the client until nothing moves any more (a large response needs
     // the client to read before the server's write event can drain its send buffer)
-    void settle() {
+    void settle(bool run_loop = true) {
         std::string got;
         bool now_eof = false;
-        pump();
+        if (run_loop) pump();
         for (int idle = 0, rounds = 0; idle < 2 && rounds < 100000; ++rounds) {
             size_t before = got.size();
             if (!eof && !now_eof && cfd >= 0) {
@@ -222,7 +281,7 @@ struct Srv {
                 }
             }
             idle = (got.size() == before) ? idle + 1 : 0;
-            for (int i = 0; i < 3; ++i) { loop->runNext([] {}, "verif-pass"); loop->runLoop(event::Loop::Mode::kOnce); }
+            if (run_loop) for (int i = 0; i < 3; ++i) { loop->runNext([] {}, "verif-pass"); loop->runLoop(event::Loop::Mode::kOnce); }
         }
         std::cout << "P out " << showBytes(got) << "\n";
         if (now_eof) { eof = true; std::cout << "P eof\n"; }
@@ -236,6 +295,12 @@ struct Srv {
 
     void stop() {
         g_wfail = false;
+        if (poisoned) {     // after an exception out of a handler the library's callback counters are unbalanced
+            if (cfd >= 0) { ::close(cfd); cfd = -1; }   // (its destructors assert on them): leak the objects
+            if (!path.empty()) ::unlink(path.c_str());
+            new std::map<int, ContextSptr>(std::move(held));
+            return;
+        }
         held.clear();   // contexts commit into a still-living server
         if (srv) { srv->cleanup(); delete srv; srv = nullptr; }
         if (cfd >= 0) { ::close(cfd); cfd = -1; }
@@ -256,7 +321,7 @@ int main() {
         if (w[0] == "case") { reset(); std::cout << line << "\n"; continue; }
         const std::string &op = w[0];
         std::vector<uint8_t> d; uint64_t n = 0, n2 = 0, n3 = 0; std::map<std::string, std::string> kvs;
-        bool ok = true;
+        bool ok = true; Srv::Script sc;
         try {
             if (op == "method" && w.size() == 2 && vh::unhex(w[1], d)) {
                 std::cout << "P method " << methodName(StringToMethod(std::string(d.begin(), d.end()))) << "\n";
@@ -269,9 +334,19 @@ int main() {
                 sv.reset(new Srv);
                 if (!sv->start()) { std::cout << "P srv-start-failed\n"; }
                 else std::cout << "P srv\n";
-            } else if (op == "sync" && w.size() == 3 && vh::to_u64(w[1], n) && vh::unhex(w[2], d) && sv && !sv->syncs.count((int)n)) {
-                sv->syncs[(int)n] = std::string(d.begin(), d.end());
+            } else if (sv && sv->poisoned && (op == "seg" || op == "done" || op == "doneN" || op == "doneR" || op == "rel" ||
+                       op == "cclose" || op == "dclose" || op == "dcloseN" || op == "cdone" || op == "chalf" || op == "chalfS" || op == "wfail")) {
+                std::cout << "P poisoned\n";
+            } else if (op == "sync" && w.size() == 3 && vh::to_u64(w[1], n) && vh::unhex(w[2], d) && sv && !sv->scripts.count((int)n)) {
+                Srv::Script sc(Srv::kLevels);
+                Srv::Act a; a.kind = 'b'; a.body.assign(d.begin(), d.end());
+                sc[0].push_back(a);
+                sv->scripts[(int)n] = sc;
                 std::cout << "P sync\n";
+            } else if (op == "script" && w.size() == 3 && vh::to_u64(w[1], n) && sv && !sv->scripts.count((int)n) &&
+                       Srv::parseScript(w[2], sc)) {
+                sv->scripts[(int)n] = sc;
+                std::cout << "P script\n";
             } else if (op == "seg" && w.size() == 2 && vh::unhex(w[1], d) && sv && !d.empty()) {
                 if (sv->cfd >= 0) ::send(sv->cfd, d.data(), d.size(), MSG_NOSIGNAL);
                 sv->settle();
@@ -341,6 +416,7 @@ int main() {
             } else ok = false;
         } catch (const std::exception &e) {
             std::cout << "P exception\n";
+            if (sv) { sv->poisoned = true; sv->settle(false); }   // what reached the client, without running the loop again
             continue;
         }
         if (!ok) std::cout << "bad-op\n";
